@@ -188,6 +188,8 @@ pub struct Resolver {
     pub(crate) file_sym_map: FxHashMap<FileId, SymbolTable>,
     def_modules: FxHashMap<DefId, ModuleData>,
     blocks: Vec<NonNull<SymbolTable>>,
+    /// index in `blocks` of the scope of the file being lowered
+    cur_file_block: usize,
     parent_node: Option<DefId>,
     nodes: FxHashMap<DefId, Node>,
     tags_id_counter: TagId,
@@ -204,6 +206,7 @@ impl Default for Resolver {
             tags_id_counter: TagId::from_usize(0),
             tags: Default::default(),
             blocks: Default::default(),
+            cur_file_block: 0,
             def_modules: Default::default(),
             did_counter: DefId::from_usize(0),
             file_sym_map: Default::default(),
@@ -526,7 +529,12 @@ impl Resolver {
     }
 
     fn lower_path(&mut self, path: &ir::Path, ns: Namespace, is_args: bool) -> Path {
-        let segs = &path.segments;
+        // an empty first segment (protobuf: `.pkg.Item`) marks an absolute path
+        let (absolute, path_segments) = match path.segments.first() {
+            Some(first) if first.sym.is_empty() => (true, &path.segments[1..]),
+            _ => (false, &path.segments[..]),
+        };
+        let segs = path_segments;
         let cur_file = self.ir_files.get(self.cur_file.as_ref().unwrap()).unwrap();
         let path_kind = match ns {
             Namespace::Value => DefKind::Value,
@@ -534,14 +542,28 @@ impl Resolver {
             Namespace::Mod => unreachable!(),
         };
         {
+            // an absolute path is looked up from the file scope inwards, so that a nested item
+            // with the same simple name does not capture it
             let segs = match segs.strip_prefix(&*cur_file.package.segments) {
                 Some(segs) => segs,
                 _ => segs,
             };
 
-            let def_id = self.blocks.iter().rev().find_map(|b| {
-                let b = unsafe { b.as_ref() };
-                self.find_path_in_table(segs, ns, b)
+            let def_id = if absolute {
+                self.blocks[self.cur_file_block.min(self.blocks.len())..]
+                    .iter()
+                    .find_map(|b| {
+                        let b = unsafe { b.as_ref() };
+                        self.find_path_in_table(segs, ns, b)
+                    })
+            } else {
+                None
+            }
+            .or_else(|| {
+                self.blocks.iter().rev().find_map(|b| {
+                    let b = unsafe { b.as_ref() };
+                    self.find_path_in_table(segs, ns, b)
+                })
             });
 
             if let Some(def_id) = def_id {
@@ -557,7 +579,7 @@ impl Resolver {
         let def_id = cur_file
             .uses
             .iter()
-            .find_map(|f| match path.segments.strip_prefix(&*f.0.segments) {
+            .find_map(|f| match path_segments.strip_prefix(&*f.0.segments) {
                 Some(rest) => {
                     let file = &self.file_sym_map[&f.1];
                     self.find_path_in_table(rest, ns, file)
@@ -809,6 +831,7 @@ impl Resolver {
 
     fn lower_file(&mut self, file: &ir::File) -> File {
         let old_file = self.cur_file.replace(file.id);
+        let old_file_block = std::mem::replace(&mut self.cur_file_block, self.blocks.len());
         let should_pop = self
             .file_sym_map
             .get(&file.id)
@@ -837,6 +860,7 @@ impl Resolver {
             self.blocks.pop();
         }
 
+        self.cur_file_block = old_file_block;
         self.cur_file = old_file;
         f
     }
